@@ -617,6 +617,18 @@ def corpus_format(ctx):
             okw = derives_from_call(rfa, fl["surface"], nx[0][0]) and \
                 not derives_from_call(rfa, fl["surface"], nx[1][0]) and \
                 derives_from_call(rfa, fl["feature"], nx[1][0])
+    # .. or built by a constructor function of Word (`Word::new(surface, feature)`)
+    from flow import ctor_fields
+    for b, t in rfa.calls():
+        c = callee_of(t)
+        cp = (c.get("resolved") or c)["path"] if c else None
+        if cp in crate.fns and crate.fns[cp].body and (t.get("dest_ty") or "") == WORD and len(nx) >= 2:
+            m = ctor_fields(E.fa(cp), WORD)
+            if m and {"surface", "feature"} <= set(m) and all(v - 1 < len(t["args"]) for v in m.values()):
+                fl = {k: t["args"][v - 1] for k, v in m.items()}
+                okw = derives_from_call(rfa, fl["surface"], nx[0][0]) and \
+                    not derives_from_call(rfa, fl["surface"], nx[1][0]) and \
+                    derives_from_call(rfa, fl["feature"], nx[1][0])
     ctx.ob("FMT", "corpus|reader|first=surface,second=feature", okw, fn_loc(crate, rp),
            "the first part becomes the surface, the second the feature" if okw else
            "surface/feature are not taken from the first/second part of the line")
@@ -1274,7 +1286,9 @@ def corpus_shape(ctx):
         from r_scorer import table_var as _tv
         cands = set()
         for pb, pt in calls_named(fa, "push"):
-            if len(pt["args"]) > 1 and "Word" in show(S.operand(pt["args"][1]))[:40]:
+            ppl = op_place(pt["args"][1]) if len(pt["args"]) > 1 else None
+            if len(pt["args"]) > 1 and ("Word" in show(S.operand(pt["args"][1]))[:40] or (
+                    ppl is not None and fa.fn.locals[ppl["l"]]["ty"].endswith("corpus::Word"))):
                 v = _tv(fa, pt["args"][0])
                 if v is not None:
                     cands.add(v)
